@@ -1536,6 +1536,57 @@ func ruleFramePair(r *Run) {
 	if r.broken() {
 		return
 	}
+	// the connection's frame callback is cancelled only as part of leaving a session: a request that is
+	// refused (or any other handler) must not leave the participant in its session without a frame callback —
+	// its pose and component updates would be coalesced and never flushed
+	if stopField := r.P.LookupField(pkgWS, "RealtimeHandler", "stopFrameHandling"); stopField != nil {
+		m := r.M()
+		isLeave := func(fn *Func) bool {
+			root := fn.root().origOrSelf()
+			for _, lf := range m.Leave {
+				if root == lf {
+					return true
+				}
+			}
+			// glue that acts only on behalf of the leave function
+			any := false
+			for nm := range r.attributed(root) {
+				any = true
+				g := r.P.FuncByName(nm)
+				okG := false
+				for _, lf := range m.Leave {
+					if g == lf {
+						okG = true
+					}
+				}
+				if !okG {
+					return false
+				}
+			}
+			return any
+		}
+		n := 0
+		for _, fn := range r.P.All {
+			if fn.Pkg.PkgPath != pkgWS {
+				continue
+			}
+			ast.Inspect(fn.Body, func(nd ast.Node) bool {
+				call, ok := nd.(*ast.CallExpr)
+				if !ok {
+					return true
+				}
+				se, ok := ast.Unparen(call.Fun).(*ast.SelectorExpr)
+				if !ok || r.P.selField(fn.Info(), se) != stopField {
+					return true
+				}
+				n++
+				r.Check("E6", fn.Name+":cancels-frames-outside-leave", isLeave(fn), call.Pos(),
+					"%s cancels the connection's frame callback; only the leave function may (a participant that stays in its session after a refused or unrelated request keeps its callback, or its pending pose and component updates are never flushed)", fn.Name)
+				return true
+			})
+		}
+		r.Floor("E6", "calls of the stored frame cancel", n, 1)
+	}
 	// NewSession: stop channel has room for the one stop signal
 	if fn := r.modelFunc("models.NewSession"); fn != nil {
 		ok := true
